@@ -64,8 +64,8 @@ func (h *H) oracle(prop, msg string) {
 
 func (h *H) mark(s string) {
 	if h.cur != nil {
-		if len(s) > 4000 {
-			s = s[:4000] + "..."
+		if len(s) > 1<<20 {
+			s = s[:1<<20] + "..." // a replay needs the whole line; only absurdly long ones are cut
 		}
 		h.cur.Truncate(0)
 		h.cur.WriteAt([]byte(s), 0)
@@ -360,6 +360,10 @@ func memWalk(v reflect.Value, buf []byte, ignore map[[2]uintptr]bool, collect ma
 			rs = append(rs, region{p, p + t.Elem().Size(), uintptr(t.Elem().Align()), "pointer to " + t.Elem().String()})
 			walk(v.Elem())
 		case reflect.Slice:
+			if v.Len() > v.Cap() {
+				bad = fmt.Sprintf("malformed slice header of type %s: len=%d > cap=%d", t.String(), v.Len(), v.Cap())
+				return
+			}
 			if v.IsNil() || v.Cap() == 0 {
 				return
 			}
